@@ -65,6 +65,18 @@ def _twin_part(run, tier):
         progs += targeted.permutation_programs(dev, 3)
         # mode names that are not modes: the transfer is refused and nothing is pipetted (C18.mode)
         progs += [p for p in targeted.reject_programs(dev) if "mode" in p["id"]]
+    # one source well for destinations in several columns (and the other way round) with volumes that are split, the side named
+    L = lambda ws: {"k": "l", "x": [list(w) for w in ws]}
+    for dev in ("evo", "fluent"):
+        for pby in ("source", "destination", "auto"):
+            h = targeted._hdr(f"C18/one-to-many-{pby}", dev, targeted.base_labware(), wlmax=5, flags={"comp": False, "norm": False})
+            h["ops"] = [{"op": "transfer", "src": 1, "sw": L([(0, 0)]), "dst": 0, "dw": L([(0, 1), (1, 2), (2, 1), (0, 3)]), "vols": {"k": "l", "x": [7, 3, 12, 2]},
+                         "label": "one to many", "wash": 1, "pby": pby},
+                        {"op": "transfer", "src": 1, "sw": L([(0, 0), (1, 0), (2, 0), (3, 0)]), "dst": 0, "dw": L([(0, 1), (1, 2), (2, 1), (0, 3)]),
+                         "vols": {"k": "l", "x": [6, 2, 3, 1]}, "label": "one column to many", "wash": 1, "pby": pby},
+                        {"op": "transfer", "src": 0, "sw": L([(0, 1), (1, 2), (2, 1), (0, 3)]), "dst": 1, "dw": L([(0, 2)]), "vols": {"k": "l", "x": [6, 3, 11, 1]},
+                         "label": "many to one", "wash": 1, "pby": pby}]
+            progs.append(h)
     for i in range(60 if q else 1500):
         dev = "evo" if i % 2 == 0 else "fluent"
         if i % 6 == 0:
